@@ -74,6 +74,9 @@ pub enum Step {
     Fund { token: usize, #[serde(with = "i128s")] amt: i128 },
     PreApprove { token: usize, #[serde(with = "i128s")] amt: i128, live_for: u32 },
     Forward { token: usize, #[serde(with = "i128s")] fee: i128, #[serde(with = "i128s")] max: i128, exp_rel: i64, arg: u32, tamper: Tamper, user_signs: bool, relayer: usize, relayer_signs: bool },
+    /// forward(…, user = the forwarder's own address, …): nobody can authorize for the forwarder, so this must fail without effect
+    /// (otherwise the relayer could spend the fees the forwarder holds)
+    ForwardSelf { token: usize, #[serde(with = "i128s")] fee: i128, #[serde(with = "i128s")] max: i128 },
     Allow { token: usize, on: bool, by_manager: bool },
     /// permissioned forwarder: the manager sweeps the collected fees of a token to a recipient
     Sweep { token: usize, to: usize, by_manager: bool },
@@ -192,6 +195,9 @@ impl Check for Forwarder {
     fn clock_step(&self, n: u32) -> Option<Step> {
         Some(Step::Advance { n })
     }
+    fn probes(&self, _prop: &str) -> std::vec::Vec<&'static str> {
+        vec!["probe.fees_swept", "probe.forward_as_forwarder", "probe.forward_as_forwarder_while_it_holds_fees"]
+    }
     fn dup_ok(&self, _s: &Step) -> bool {
         true
     }
@@ -219,7 +225,8 @@ impl Check for Forwarder {
                         Step::Forward { token, fee, max, exp_rel, arg: rng.below(1000) as u32, tamper, user_signs: !rng.chance(6), relayer: if rng.chance(90) { 1 } else { 3 }, relayer_signs: !rng.chance(5) }
                     }
                     71..=80 if cfg.permissioned => Step::Allow { token: rng.below(4) as usize, on: rng.chance(60), by_manager: !rng.chance(12) },
-                    81..=83 => Step::SetTrap { on: rng.chance(50) },
+                    81 => Step::ForwardSelf { token, fee: 1 + rng.below(50) as i128, max: 50 + rng.below(1000) as i128 },
+                    82..=83 => Step::SetTrap { on: rng.chance(50) },
                     84..=85 if cfg.permissioned => Step::Sweep { token, to: *rng.pick(&[0usize, 1, 3]), by_manager: !rng.chance(15) },
                     84..=85 => Step::SetTrap { on: rng.chance(50) },
                     _ => {
@@ -238,6 +245,7 @@ impl Check for Forwarder {
                 Step::Forward { .. } => {
                     m.forward(&cfg, &s);
                 }
+                Step::ForwardSelf { .. } => {}
                 Step::Allow { token, on, by_manager } => {
                     if *by_manager {
                         if *on && !m.allowed.contains(token) {
@@ -332,6 +340,16 @@ impl Check for Forwarder {
                     }
                     outcome = Some((matches!(got, Ok(Ok(_))), exp));
                 }
+                Step::ForwardSelf { token, fee, max } => {
+                    kind = "forward_self";
+                    let exp = w.now() + 10;
+                    let t_args: Vec<Val> = (fwd.clone(), 7u32).into_val(e);
+                    let full: Vec<Val> = (toks[*token].clone(), *fee, *max, exp, tgt.clone(), hit.clone(), t_args, fwd.clone(), a(1)).into_val(e);
+                    w.set_auth(&[(1, Inv::new(&fwd, "forward", full.clone()))]);
+                    let got = e.try_invoke_contract::<Val, soroban_sdk::Error>(&fwd, &Symbol::new(e, "forward"), full).map(|r| r.is_ok()).unwrap_or(false);
+                    st.hit(if m.b(*token, 100) >= *fee { "probe.forward_as_forwarder_while_it_holds_fees" } else { "probe.forward_as_forwarder" });
+                    outcome = Some((got, false));
+                }
                 Step::Forward { token, fee, max, exp_rel, arg, tamper, user_signs, relayer, relayer_signs } => {
                     kind = "forward";
                     let exp = (w.now() as i64 + exp_rel).max(0) as u32;
@@ -384,7 +402,7 @@ impl Check for Forwarder {
                     };
                     let check = match (kind, got) {
                         (_, true) if role_reason => "roles.manager_or_executor_only",
-                        ("forward", true) => "charge.needs_user_auth_over_exact_call_and_bounds",
+                        ("forward" | "forward_self", true) => "charge.needs_user_auth_over_exact_call_and_bounds",
                         (_, true) => "refine.must_fail",
                         (_, false) => "live.must_succeed",
                     };
